@@ -198,7 +198,7 @@ theorem carrier_of_selected (hU : UniqueIds cfg) (hC : ChargeWF cfg) {a t x c : 
     cases hk : x.kind <;> rw [hk] at hdom hc <;> simp [Kind.modDomain, Kind.ownerModifiable] at hdom
     all_goals first
       | exact Or.inl (hcar _ hfit hc)
-      | exact Or.inr ⟨(Option.some.inj hc).symm, by rw [hk]; rfl, hown⟩
+      | exact Or.inr ⟨(Option.some.inj (show some x = some c from hc)).symm, by simp [Kind.ownerModifiable], hown⟩
       | (obtain ⟨p, hp, hcp⟩ := Option.bind_eq_some_iff.1 hc
          obtain ⟨hnd, hnf, hmod⟩ := hC x hx (by simp [hk, Kind.isCharge]) p hp
          cases hpk : p.kind <;> rw [hpk] at hcp hnd hnf hmod <;> simp at hcp hnd hnf
